@@ -209,6 +209,11 @@ impl<V: VringT<GM> + Clone + Send + Sync + 'static> VhostUserBackendMut for Tb<V
     }
 }
 
+thread_local! {
+    /// the observations of the steps that completed, for the case that a later step brings the run down
+    static PARTIAL: std::cell::RefCell<Vec<Val>> = std::cell::RefCell::new(vec![]);
+}
+
 /// how the backend object is handed to the daemon: behind Arc<Mutex<_>> or Arc<RwLock<_>> (both adapters of backend.rs)
 trait Wrap<V: VringT<GM> + Clone + Send + Sync + 'static>:
     VhostUserBackend<Vring = V, Bitmap = BitmapMmapRegion> + Clone + Send + Sync + 'static
@@ -570,7 +575,22 @@ impl<V: VringT<GM> + Clone + Send + Sync + 'static, B: Wrap<V>> Run<V, B> {
 fn run_with<V: VringT<GM> + Clone + Send + Sync + 'static, B: Wrap<V>>(cfg: &[Val], steps: &[Val]) -> Val {
     let wants = steps.last().and_then(|s| s.as_l()).and_then(|p| p.first()).and_then(|k| k.as_s()) == Some("teardown");
     let before = crate::peer::count_open_fds();
-    let v = run_inner::<V, B>(cfg, if wants { &steps[..steps.len() - 1] } else { steps });
+    PARTIAL.with(|p| p.borrow_mut().clear());
+    // a panic on the backend side (a worker thread, or the request server once a lock is poisoned) ends the history:
+    // what was observed up to there is kept, so that the Spec can still judge the steps that completed, and the
+    // last entry says that the run did not survive
+    let inner = std::panic::catch_unwind(std::panic::AssertUnwindSafe(|| {
+        run_inner::<V, B>(cfg, if wants { &steps[..steps.len() - 1] } else { steps })
+    }));
+    let v = match inner {
+        Ok(v) => v,
+        Err(_) => {
+            crate::PANICS.fetch_add(1, std::sync::atomic::Ordering::SeqCst);
+            let mut out = PARTIAL.with(|p| p.borrow().clone());
+            out.push(Val::L(vec![Val::s("panic"), Val::L(vec![])]));
+            return Val::L(out);
+        }
+    };
     if !wants {
         return v;
     }
@@ -705,6 +725,7 @@ fn run_inner<V: VringT<GM> + Clone + Send + Sync + 'static, B: Wrap<V>>(cfg: &[V
             _ => (0, 0, 0),
         });
         out.push(Val::L(vec![res, Val::L(ev)]));
+        PARTIAL.with(|p| p.borrow_mut().push(out.last().unwrap().clone()));
     }
     // teardown
     let Run { mut daemon, fe, mut fdt, .. } = run;
